@@ -25,6 +25,10 @@ type propContract struct {
 	Role string `json:"role,omitempty"`
 	// clauses of this contract that belong to another property (decided, and reported, there)
 	Skip []string `json:"skip_clauses,omitempty"`
+	// when set: only obligations whose name contains one of these strings are pinned for this property; the
+	// function's other obligations are generated, counted and reported as undecided without being attempted
+	// in the quick tier (the thorough tier attempts everything)
+	Only []string `json:"only_clauses,omitempty"`
 }
 
 type propConfig struct {
@@ -145,6 +149,7 @@ func cmdCheck(args []string) int {
 	var results []*vc.FuncResult
 	var bindErrs []string
 	var skippedClauses []string
+	var notAttempted []string
 	specByKey := map[string]*vc.FuncSpec{}
 	for _, s := range p.FuncSpecs() {
 		specByKey[s.Pkg+"::"+s.Name] = s
@@ -175,6 +180,23 @@ func cmdCheck(args []string) int {
 						skippedClauses = append(skippedClauses, r.Func+"#"+o.Name)
 					} else {
 						keep = append(keep, o)
+					}
+				}
+				r.Obls = keep
+			}
+			if len(c.Only) > 0 && *tier != "thorough" {
+				var keep []*vc.Obligation
+				for _, o := range r.Obls {
+					hit := false
+					for _, l := range c.Only {
+						if strings.Contains(o.Name, l) {
+							hit = true
+						}
+					}
+					if hit {
+						keep = append(keep, o)
+					} else {
+						notAttempted = append(notAttempted, r.Func+"#"+o.Name+" (not attempted in the quick tier: outside the clauses pinned for this function)")
 					}
 				}
 				r.Obls = keep
@@ -461,7 +483,7 @@ func cmdCheck(args []string) int {
 		level = "proof"
 	}
 	explanation := ""
-	if level == "proof" && (len(knownHit) > 0 || len(undecided) > 0 || len(skippedUndecided) > 0 || len(unsupportedFns) > 0) {
+	if level == "proof" && (len(knownHit) > 0 || len(undecided) > 0 || len(skippedUndecided) > 0 || len(notAttempted) > 0 || len(unsupportedFns) > 0) {
 		level = "other"
 		explanation = "contract-based deductive verification; not every generated obligation is discharged (known findings / undecided obligations listed), so this run is not reported at proof level"
 	}
@@ -484,7 +506,8 @@ func cmdCheck(args []string) int {
 		tb = append(tb, "contract relied upon at call sites (verified where it is listed under functions_under_contract of its property): "+t)
 	}
 	undecided = append(undecided, skippedUndecided...)
-	total += len(skippedUndecided)
+	undecided = append(undecided, notAttempted...)
+	total += len(skippedUndecided) + len(notAttempted)
 	cov := map[string]interface{}{
 		"obligations": total, "discharged": discharged,
 		"checker_cmd":  fmt.Sprintf("/verif/check %s --tier %s", *prop, *tier),
